@@ -50,6 +50,27 @@ fn half_life(rep: &mut Report, v: &Value) -> bool {
     let want = get_i64(v, "want");
     let key = format!("half_life|mp={mp_raw}|s={s:?}");
     let len = s.len() as i64;
+    // Lags whose autocorrelation is exactly 1/2: the floating-point value may fall on either side.
+    // TLC emits one behaviour per resolution; this one applies only if it resolves every tie the
+    // way the library's own autocorrelation (vcorr_pearson of the series and its lag - the function
+    // the property defines the half-life by) does on this input.
+    let ties = get_ints(v, "ties");
+    if !ties.is_empty() {
+        let above = get_ints(v, "above");
+        let vf: Vec<f64> = enc_vec(&s);
+        let mpu = mp.unwrap_or(s.len() / 2);
+        for k in &ties {
+            let c = catch(|| vf.titer().vcorr_pearson::<f64, _, _>(vf.titer().vshift(*k as i32, None), mpu));
+            let Ok(c) = c else {
+                rep.mismatch("half_life", "half_life", &key, "autocorrelation", "vcorr_pearson panicked on the lagged series", v);
+                return true;
+            };
+            if (c > 0.5) != (above[*k as usize - 1] == 1) {
+                rep.skipped(); // the other resolution's behaviour covers this input
+                return true;
+            }
+        }
+    }
     let mut run = |cell: &str, f: Box<dyn FnOnce() -> usize + Send>| -> bool {
         rep.cells += 1;
         let (tx, rx) = mpsc::channel();
